@@ -79,10 +79,10 @@ theorem step_keep (st : Core) (f : Frame) (d : Nat) (hne : ¬ Expanded st f d) :
       constructor
       · intro c' hc
         rw [cleanupsOf_eq, fieldOf_newStored _ _ _ _ (fun _ _ => rfl)]
-        exact cleanupsOf_regCleanup_mono _ _ _ _ _ hc
+        exact cleanupsOf_regCleanup_mono _ _ _ _ _ _ hc
       · intro k hk
         unfold newStored
-        have : k ∈ nodesOf (newItem (regCleanup (logEv st (Ev.c c.tag c.cid ow late)) (c.tag + 100) false)
+        have : k ∈ nodesOf (newItem (regCleanup (logEv st (Ev.c c.tag c.cid ow late)) (c.tag + 100) false none)
             (Val.num c.tag)).1 d := by
           apply nodesOf_newItem_mono
           rw [nodesOf_eq, fieldOf_regCleanup _ _ _ _ _ (fun _ _ => rfl)]; exact hk
